@@ -607,6 +607,28 @@ def mirror_rules(run, db):
                   '(e.g. the m = 1 correction of the sine sum is applied according to the number of cosine coefficients)' % (nm, fam, 'sine' if fam == 'a_coef' else 'cosine'), f.loc(B))
 
 
+def counter_rules(run, db):
+    """compute_z_zprime_Q2d walks (a_m, b_m) for m = 1, 2, ...: the order counter advances on EVERY pass, skipped orders included."""
+    from .common import every_pass_executes, loop_carried
+    f = db.func(Q + 'compute_z_zprime_Q2d')
+    loops = [n for n in walk_no_nested(f.node) if isinstance(n, ast.For) and 'a_coef' in ast.unparse(n.target)]
+    if len(loops) != 1:
+        raise AnalysisError('compute_z_zprime_Q2d: loop over (a_coef, b_coef) not found')
+    lp = loops[0]
+    run.check(ast.unparse(lp.iter).replace(' ', '') == 'zip(ams,bms)', 'C10.sym', f.qual, 'walk', 'cosine and sine coefficient lists are walked together, order by order', 'the families are no longer zipped', f.loc(lp))
+    is_inc = lambda st: isinstance(st, ast.AugAssign) and isinstance(st.op, ast.Add) and ast.unparse(st.target) == 'm' and ast.unparse(st.value) == '1'
+    incs = [st for st in ast.walk(lp) if is_inc(st)]
+    ok, passed = every_pass_executes(lp.body, is_inc)
+    pre = [st for st in f.node.body if isinstance(st, ast.Assign) and ast.unparse(st.targets[0]) == 'm']
+    okinit = len(pre) == 1 and ast.unparse(pre[0].value) == '0' and lp.body and is_inc(lp.body[0])
+    uses_before = False
+    run.check(len(incs) == 1 and ok and passed and 'm' in loop_carried(lp), 'C10.sym', f.qual, 'order counter', 'm advances exactly once on every pass (also on passes skipped because both families are empty)',
+              'the azimuthal order counter m is not advanced on every pass through the loop (a `continue` is reached before `m += 1`): an order absent from both families no longer advances m, '
+              'so every later order is evaluated with too small an m', f.loc(incs[0]) if incs else f.loc(lp))
+    run.check(okinit, 'C10.sym', f.qual, 'order counter start', 'm starts at 0 and is advanced before it is used, so entry k of the lists is evaluated with m = k + 1',
+              'the order counter does not start at 0 / is not advanced first in the pass', f.loc(lp))
+
+
 def pack_rules(run, db):
     f = db.func(Q + 'Q2d_nm_c_to_a_b')
     # the output lists cover m = 1 .. max KEY of both dictionaries
@@ -655,6 +677,13 @@ def lstsq_rules(run, db):
     masks = [n for t, n in assigns if t == 'mask']
     ok = len(masks) == 1 and ast.unparse(masks[0].value).replace(' ', '') == 'np.isfinite(data)'
     run.check(ok, 'C10.lstsq', f.qual, 'mask', 'one mask = isfinite(data)', 'the validity mask is not isfinite(data) computed once', f.loc())
+    # the mask is taken from the data AS GIVEN: no cast/arithmetic on data before isfinite (a cast to an integer/boolean dtype turns NaN into a number)
+    early = [n for t, n in assigns if t == 'data' and masks and n.lineno < masks[0].lineno]
+    benign = lambda v: ast.unparse(v).replace(' ', '') in ('np.asarray(data)', 'np.asanyarray(data)', 'np.array(data)', 'np.atleast_1d(data)')
+    bad_early = [n for n in early if not benign(n.value)]
+    run.check(not bad_early, 'C10.lstsq', f.qual, 'mask before cast', 'the finite-mask is computed from the data as given (no cast or arithmetic before it)',
+              '`%s` rewrites the data before the finite-mask is taken: with integer or boolean modes the cast truncates the data and turns NaN/inf samples into ordinary numbers that are no longer ignored'
+              % (norm_stmt(bad_early[0]) if bad_early else ''), f.loc(bad_early[0]) if bad_early else f.loc())
     d = [n for t, n in assigns if t == 'data']
     m = [n for t, n in assigns if t == 'modes']
     okd = any(ast.unparse(n.value).replace(' ', '') == 'data[mask]' for n in d)
@@ -682,7 +711,7 @@ def check(run, db, tier):
     run.rule('C10.lstsq', 'data and modes are restricted by one and the same finite-mask before the solve')
     run.rule('C10.basis', 'Q->P change of basis (Qbfs, Q2d): every entry is the transposed Q recurrence with the coefficient indices of its own order; initial entries are the step restricted; the sweep reaches 0')
     run.rule('C10.assembly', 'Clenshaw results are alpha_0 P_0 + alpha_1 (P_1 - L_0 P_0) with the value routine\'s P_0, P_1, L_0; the effective Q2d coefficients of the special orders reproduce the published starting polynomials and the m = 1 correction is their residual')
-    for fn in (clenshaw_rules, basis_rules, assembly_rules, len1_rules, sym_rules, mirror_rules, pack_rules, lstsq_rules):
+    for fn in (clenshaw_rules, basis_rules, assembly_rules, len1_rules, sym_rules, mirror_rules, counter_rules, pack_rules, lstsq_rules):
         run.group(fn, run, db)
     run.require_instances('C10.basis', 9)
     run.require_instances('C10.assembly', 7)
